@@ -21,6 +21,9 @@ var propPkgs = map[string][]string{
 	"C10": {"pkg/query/aggregation"},
 	"C13": {"pkg/pipeline/sdk"},
 	"C04": {"pkg/fs"},
+	"C14": {"banyand/internal/storage", "pkg/timestamp"},
+	"C07": {"banyand/internal/storage", "pkg/timestamp"},
+	"C06": {"banyand/internal/storage", "pkg/timestamp"},
 }
 
 type Finding struct {
@@ -120,6 +123,8 @@ type CheckResult struct {
 	LoadErr     string
 	Backends    map[string]int
 	Bounded     []string
+	NBounded    int
+	NBoundedOK  int
 }
 
 // runCheck verifies every contract tagged with prop. overlay replaces files (mutants for the self-test).
@@ -199,6 +204,9 @@ func runCheck(root, prop, tier string, overlay map[string][]byte) *CheckResult {
 	res.Reports = reps
 	var all []*Obligation
 	for _, r := range reps {
+		if r.Contract != nil && r.Contract.Opts["bounded"] != "" {
+			res.Bounded = append(res.Bounded, fmt.Sprintf("%s: %s (%d obligations inside the bound, not counted as proved)", r.Name, r.Contract.Opts["bounded"], len(r.Obligs)))
+		}
 		if r.Kind == "func" {
 			res.NFuncs++
 		} else {
@@ -246,7 +254,17 @@ func runCheck(root, prop, tier string, overlay map[string][]byte) *CheckResult {
 				}
 				continue
 			}
-			res.NOblig++
+			bounded := r.Contract != nil && r.Contract.Opts["bounded"] != ""
+			if bounded {
+				// a bounded stand-in is never counted as proved; a failure inside the bound is still a violation
+				res.NBounded++
+				if o.Status == "discharged" {
+					res.NBoundedOK++
+					continue
+				}
+			} else {
+				res.NOblig++
+			}
 			if o.Status == "discharged" {
 				res.NDischarged++
 				res.Backends[o.Verdict.Backend]++
@@ -408,6 +426,8 @@ func writeEvidence(res *CheckResult) {
 			"per_obligation":           res.Records,
 			"samples":                  samples,
 			"bounded_standins":         res.Bounded,
+			"bounded_obligations":      res.NBounded,
+			"bounded_discharged":       res.NBoundedOK,
 			"load_error":               res.LoadErr,
 		},
 		"assumptions": assumptions,
